@@ -82,6 +82,12 @@ def build_cases(tier):
             for pairs in ([["Y", "Q"], ["Q", "gg.v"]], [["Q", "gg.v"], ["Y", "Q"]], [["A.attr", "AA.att"], ["att", "gg.u"]],
                           [["Y", "Q"], ["Q", "AA.att"], ["att", "gg.w"]]):
                 cases.append({"oi": oi, "oo": oo, "pairs": pairs, "wrap": wrap, "eval": False, "via": "api", "overlap": True})
+    # the input property is a plain (un-annotated) assignment at module level / in a class
+    for oi, oo in multi_orders:
+        for i in ("X", "P.plain"):
+            for o in OUT_LOCS:
+                # (no wrap template here: an un-annotated input has no annotation to wrap, and doctrans says so)
+                cases.append({"oi": oi, "oo": oo, "pairs": [[i, o]], "wrap": False, "eval": False, "via": "api", "plain_assign": True})
     # eval mode with the wrap template and several pairs (the same evaluated input used twice, two different inputs)
     for oi, oo in multi_orders:
         for wrap in (False, True):
@@ -227,6 +233,8 @@ class C14(core.Check):
         self._calls = getattr(self, "_calls", 0) + 1
         tag, num = "t%d" % (self._calls % 7), 10 + self._calls % 5
         in_src = module_src(IN_ITEMS, case["oi"], EVAL_PREFIX.format(tag=tag, num=num) if case["eval"] else "from typing import Optional\n")
+        if case.get("plain_assign"):
+            in_src += "\nX = 7\n\n\nclass P(object):\n    plain = 'p'\n"
         if case.get("overlap"):
             in_src += "\nQ: float = 1.5\natt: bytes = b'x'\n"
         out_src = module_src(OUT_ITEMS, case["oo"])
